@@ -108,7 +108,8 @@ def run_item(harness_name: str, item: Dict[str, Any]) -> Dict[str, Any]:
     # reachability twin
     kf.TWIN = True
     kf.HITS["oracle"] = kf.HITS["nontrivial"] = 0
-    tw = engine.run_obligation(fn, timeout=item.get("twin_timeout", 20.0), per_path_timeout=10.0)
+    analyse = getattr(fn, "smt_runner", None) or engine.run_obligation   # obligations decided by a direct SMT encoding (vf/ast2smt.py) bring their own driver
+    tw = analyse(fn, timeout=item.get("twin_timeout", 20.0), per_path_timeout=10.0)
     kf.TWIN = False
     out["twin"] = {"verdict": tw["verdict"], "paths": tw["paths"], "cex": tw["cex"], "message": tw["message"][:300]}
     if tw["verdict"] != "refuted":
@@ -120,7 +121,7 @@ def run_item(harness_name: str, item: Dict[str, Any]) -> Dict[str, Any]:
             _native_probes(mod, fn, ob, out)
         return out
     kf.HITS["oracle"] = kf.HITS["nontrivial"] = 0
-    r = engine.run_obligation(fn, timeout=item.get("timeout", 60.0), per_path_timeout=item.get("path_timeout", 20.0))
+    r = analyse(fn, timeout=item.get("timeout", 60.0), per_path_timeout=item.get("path_timeout", 20.0))
     out.update(r)
     out["oracle_hits"] = kf.HITS["oracle"]
     out["nontrivial"] = kf.HITS["nontrivial"]
